@@ -1,10 +1,11 @@
 // C19: transaction pools — per-account nonce order, no duplicates, no loss, bounded.
 //
-// Leg "apppool":  model-based stateful test of the EVM application's nonce-aware pool
-//                 (chain/app/evm/tx_pool.go, tx_sort.go) driven through the real EVMApp
-//                 (OnExecute -> pool.Update -> OnCommit, the order of gemmill/state/execution.go).
-// Leg "mempool":  the same op language against the plain FIFO gemmill/mempool.
-// Leg "concurrent" (thorough, -race): submitters vs. the commit path on the app pool.
+//   - leg "apppool": model-based stateful test of the EVM application's nonce-aware pool
+//     (chain/app/evm/tx_pool.go, tx_sort.go) driven through the real EVMApp
+//     (OnExecute -> pool.Update -> OnCommit, the order of gemmill/state/execution.go);
+//   - leg "mempool": the same op language against the plain FIFO gemmill/mempool;
+//   - legs "concurrent" and "concurrent_race" (thorough): submitters vs. the commit path on
+//     the app pool, functional oracle resp. race detector.
 //
 // Not driven: the app pool's time-based eviction (1-minute ticker, 10-minute waiting life time);
 // the gossip queue (broadcastQueue / TxsFrontWait) is not observed.
